@@ -218,6 +218,14 @@ func VerifC16CrossDir() {
 	}
 	dirs := []string{".", "sub", "x"}
 	want := map[string]bool{"x": true, "sub": true, "sub/x": false, "x/sub": false}
+	if verifChoice("open-nested-first", 2) == 1 {
+		// a nested file is opened (and so cached, its directory created in the cache store) before anything is listed
+		verifTag("history", "nested file opened first")
+		nf, oerr := fsys.Open("sub/x")
+		verifAssert(oerr == nil, "Open(sub/x) failed")
+		_, _ = nf.Read(make([]byte, 1))
+		_ = nf.Close()
+	}
 	// list every directory once, in a chosen order
 	order := [][]int{{0, 1, 2}, {0, 2, 1}, {1, 0, 2}, {2, 1, 0}}[verifChoice("order", 4)]
 	for _, di := range order {
@@ -248,6 +256,12 @@ func VerifC16CrossDir() {
 			info, err := hackpadfs.Stat(fsys, full)
 			verifAssert(err == nil, "Stat of a listed entry failed")
 			verifAssert(info.IsDir() == isDir, "Stat disagrees with the listing about an entry's kind")
+			// mode and size are the underlying file system's, whatever a layer has created for itself meanwhile
+			truth, terr := hackpadfs.Stat(base, full)
+			verifAssert(terr == nil, "Stat on the underlying file system failed")
+			verifAssert(info.Mode() == truth.Mode(), "Stat through the layer reports another mode than the underlying file system")
+			einfo, eerr := e.Info()
+			verifAssert(eerr == nil && einfo.Mode() == truth.Mode(), "a listed entry's Info reports another mode than the underlying file system")
 		}
 	}
 }
